@@ -229,7 +229,8 @@ def generate(flexdir, src, cfg, workdir, name, san=True, cc_extra=()):
         raise GenError("flex rc=%d" % p.returncode, p.stderr, p.returncode)
     ctext = open(cpath, errors="replace").read()
     defs = detect_defs(ctext)
-    cc = ["g++" if c["flavour"] == "cxx" else "gcc", "-O0", "-w", "-g", "-D_GNU_SOURCE"]
+    # (-Werror=overflow: a table initialiser that does not fit its element type is a generation defect, not a warning)
+    cc = ["g++" if c["flavour"] == "cxx" else "gcc", "-O0", "-w", "-Werror=overflow", "-g", "-D_GNU_SOURCE"]
     if san: cc += ["-fsanitize=address,undefined", "-fno-sanitize-recover=undefined"]
     if c.get("tablesfile"): defs = ["VF_TABLESFILE", "VF_NODUMP"] + [d for d in defs if d == "VF_HAS_EOLTBL" and False]
     cc += ["-D" + d for d in defs] + ["-I", flexdir] + list(cc_extra) + ["-o", exe, cpath]
